@@ -239,6 +239,17 @@ var FixedViolations = []FixedViolation{
 	fv("script A {", "lock", "@@MyText:", "b", "}", "text MyText {", "\"t\"", "}"),
 	fv("script A {", "msgbox(\"x\")", "@@A_Text_0:", "b", "}"),
 	fv("script First {", "if (flag(F)) {", "a", "}", "b", "}", "script A {", "while (flag(G)) {", "@@A_3:", "x", "}", "}"),
+	// the same label clashes written with a scope modifier, and inside inline map scripts
+	fv("script A {", "if (flag(F)) {", "a", "}", "@@A_1(global):", "b", "}"),
+	fv("script A {", "if (flag(F)) {", "a", "}", "@@A_1(local):", "b", "}"),
+	fv("script A {", "@@A_2(global):", "if (flag(F)) {", "a", "}", "b", "}"),
+	fv("script A {", "msgbox(\"x\")", "@@A_Text_0(global):", "b", "}"),
+	fv("script A {", "lock", "@@MyText(global):", "b", "}", "text MyText {", "\"t\"", "}"),
+	fv("script A {", "lock", "@@MyText(local):", "b", "}", "text(local) MyText {", "\"t\"", "}"),
+	fv("script A {", "@@A(global):", "b", "}"),
+	fv("mapscripts M {", "MAP_SCRIPT_ON_LOAD {", "if (flag(F)) {", "a", "}", "@@M_MAP_SCRIPT_ON_LOAD_1(global):", "b", "}", "}"),
+	fv("mapscripts M {", "MAP_SCRIPT_ON_FRAME_TABLE [", "V, 1 {", "while (flag(F)) {", "@@M_MAP_SCRIPT_ON_FRAME_TABLE_0_2:", "a", "}", "}", "]", "}"),
+	fv("mapscripts M {", "MAP_SCRIPT_ON_FRAME_TABLE [", "V, 1 {", "msgbox(\"x\")", "@@M_MAP_SCRIPT_ON_FRAME_TABLE_0_Text_0(global):", "a", "}", "]", "}"),
 	fv("script A {", "while (flag(L)) {", "switch (var(V)) {", "case 1:", "@@continue", "after", "}", "}", "}"),
 	fv("script A {", "do {", "switch (var(V)) {", "default:", "@@continue", "after", "}", "} while (flag(L))", "}"),
 	fv("script A {", "switch (var(V)) {", "case 1:", "@@continue", "}", "}"),
